@@ -22,6 +22,9 @@ CLAIMS = {
  "C17": ("must-pass/branch-fact ordering of the load pipeline, error discipline over the loader's own functions, enforcement-site table checked in the merge code and in the generated validators, post-state rules, C15 crash-class rules with Validate as entry",
          "Decides that a nil result of Validate can only be the verdict of the generated ValidateAll reached after decode, URL validation and merge succeeded; that each obligation named by the property has an enforcement site that guards an error on the merged configuration; that overrides are replaced and the default cleared; and that no own-code panic class is reachable while loading. The space of JSON documents is not explored.",
          "go/ssa model; protojson/protoc-gen-validate runtime contracts; generated code is read like any other source"),
+ "C10": ("typestate/path rules on the memory store (every map lookup passes the expiry predicate; predicate pairing by data dependence), HSETNX write-once rule, must-pass TTL-refresh on every successful Redis return, provenance of EXPIREAT alternatives, constructor/wiring parameter-role agreement, registration in main",
+         "Decides that expiry enforcement is on the access path of the assembled service (not in an uncalled sweep), that each timeout is paired with its own base, that creation time is write-once in both stores, that every successful Redis operation refreshes the TTL from created+absolute / now+idle (earlier wins), and that the timeouts are wired to the right constructor parameters from main. Boundary seconds, TTL arithmetic values and real elapsed time are not decided.",
+         "go/ssa model; Redis honours EXPIREAT; run.Group calls PreRun of registered units"),
 }
 
 NOT_YET = "check under construction in this round; see DESIGN.md section 4 for the planned static rules"
